@@ -237,6 +237,33 @@ pub fn build(name: &str) -> Hier {
             ];
             finish(Hierarchy::build(name, &[root, t, l, u], &[(0, 0)]), q, Some("x.u."), None)
         }
+        // for the validating RECURSOR: in-zone name servers with glue; zone i is served at
+        // 198.51.100.(i+1)
+        "recursor" => {
+            let nsr = |zone: &str, host: &str| Record::from_rdata(n(zone), 300, RData::NS(NS(n(host))));
+            let root = ZoneDef {
+                origin: Name::root(),
+                keys: vec![root_key],
+                nx: nsec.clone(),
+                records: vec![a("ns.", [198, 51, 100, 1]), nsr("t.", "ns.t."), a("ns.t.", [198, 51, 100, 2]), ds_for("t.", ed[1], F_KSK), nsr("u.", "ns.u."), a("ns.u.", [198, 51, 100, 4])],
+            };
+            let mut trec = leaf_records("t.", 10);
+            trec.extend([a("ns.t.", [198, 51, 100, 2]), nsr("l.t.", "ns.l.t."), a("ns.l.t.", [198, 51, 100, 3]), ds_for("l.t.", ed[2], F_KSK)]);
+            let t = ZoneDef { origin: n("t."), keys: vec![(ed[1], F_KSK)], nx: nsec.clone(), records: trec };
+            let mut lrec = leaf_records("l.t.", 20);
+            lrec.push(a("ns.l.t.", [198, 51, 100, 3]));
+            let l = ZoneDef { origin: n("l.t."), keys: vec![(ed[2], F_KSK)], nx: nsec, records: lrec };
+            let mut urec = leaf_records("u.", 40);
+            urec.push(a("ns.u.", [198, 51, 100, 4]));
+            let u = ZoneDef { origin: n("u."), keys: vec![], nx: None, records: urec };
+            let q = vec![(n("www.l.t."), RecordType::A), (n("www.l.t."), RecordType::AAAA), (n("nx.l.t."), RecordType::A), (n("www.t."), RecordType::A), (n("www.u."), RecordType::A)];
+            finish(
+                Hierarchy::build_ns(name, &[(root, n("ns.")), (t, n("ns.t.")), (l, n("ns.l.t.")), (u, n("ns.u."))], &[(0, 0)]),
+                q,
+                Some("x.u."),
+                None,
+            )
+        }
         // four signed levels: root -> t. -> l.t. -> x.l.t.
         "depth-4" => {
             let root = ZoneDef { origin: Name::root(), keys: vec![root_key], nx: nsec.clone(), records: vec![ns("t."), ds_for("t.", ed[1], F_KSK), ns("u.")] };
